@@ -253,6 +253,7 @@ def selftest():
     from . import aes_ref
 
     aes_ref.selftest()
+    ossl = aes_ref.cross_check_openssl()
     env = dict(os.environ, PYTHONPATH=HERE, PYTHONDONTWRITEBYTECODE="1")
     code = ("import sys, json; from vf.sandbox import Sandbox; sb = Sandbox(%r); cc = sb.import_target(); "
             "print(cc.__file__)" % os.environ.get("VERIF_REPO", "/repo"))
@@ -261,7 +262,8 @@ def selftest():
     if out.returncode != 0:
         print("selftest: sandbox/import guard failed:\n" + out.stderr)
         return 2
-    print("selftest ok: AES reference vectors pass; library imports from %s" % out.stdout.strip())
+    print("selftest ok: AES reference vectors pass%s; library imports from %s" % (
+        " (and agree with the openssl CLI)" if ossl else "", out.stdout.strip()))
     return 0
 
 
